@@ -18,9 +18,237 @@ def Warning.kind : Warning → Kind
   | .multipleSexes .. => .sex
   | .inverseSpouses .. => .inv
 
+/-! ### `oncePerPair` -/
+
+/-- two warnings are about the same pair of people: the same unordered pair of siblings, or the
+    same (parent, child) -/
+def samePair : Warning → Warning → Prop
+  | .siblingsBornTooClose _ a b, .siblingsBornTooClose _ a' b' => (a = a' ∧ b = b') ∨ (a = b' ∧ b = a')
+  | .childBornBeforeParent _ p c, .childBornBeforeParent _ p' c' => p = p' ∧ c = c'
+  | _, _ => False
+
+/-- the same unordered pair -/
+def symPair (p q : Nat × Nat) : Prop := (p.1 = q.1 ∧ p.2 = q.2) ∨ (p.1 = q.2 ∧ p.2 = q.1)
+
+theorem pairsHas_iff {ps : List (Nat × Nat)} {a b : Nat} :
+    pairsHas ps a b = true ↔ ∃ q ∈ ps, symPair q (a, b) := by
+  simp [pairsHas, symPair, List.any_eq_true]
+
+theorem opp_sublist : ∀ (ws : List Warning) (pc sb : List (Nat × Nat)),
+    List.Sublist (oncePerPairGo ws pc sb) ws := by
+  intro ws
+  induction ws with
+  | nil => intro pc sb; simp [oncePerPairGo]
+  | cons w ws ih =>
+    intro pc sb
+    cases w <;> simp only [oncePerPairGo]
+    case childBornBeforeParent f p c =>
+      split
+      · exact (ih pc sb).cons _
+      · exact (ih _ sb).cons_cons _
+    case siblingsBornTooClose f a b =>
+      split
+      · exact (ih pc sb).cons _
+      · exact (ih pc _).cons_cons _
+    all_goals exact (ih pc sb).cons_cons _
+
+/-- warnings of the other six kinds pass through -/
+theorem opp_mem_other {w : Warning} (h1 : w.kind ≠ .cbbp) (h2 : w.kind ≠ .sib) :
+    ∀ (ws : List Warning) (pc sb : List (Nat × Nat)), w ∈ oncePerPairGo ws pc sb ↔ w ∈ ws := by
+  intro ws
+  induction ws with
+  | nil => intro pc sb; simp [oncePerPairGo]
+  | cons x ws ih =>
+    intro pc sb
+    cases x <;> simp only [oncePerPairGo]
+    case childBornBeforeParent f p c =>
+      have hne : w ≠ .childBornBeforeParent f p c := by intro e; rw [e] at h1; exact h1 rfl
+      split <;> simp [ih, hne]
+    case siblingsBornTooClose f a b =>
+      have hne : w ≠ .siblingsBornTooClose f a b := by intro e; rw [e] at h2; exact h2 rfl
+      split <;> simp [ih, hne]
+    all_goals simp [ih]
+
+/-- a (parent, child) pair that is reported at all, and is not in the set yet, stays reported -/
+theorem opp_cbbp_kept {p c : Nat} : ∀ (ws : List Warning) (pc sb : List (Nat × Nat)),
+    (p, c) ∉ pc → (∃ f, Warning.childBornBeforeParent f p c ∈ ws) →
+    ∃ f, Warning.childBornBeforeParent f p c ∈ oncePerPairGo ws pc sb := by
+  intro ws
+  induction ws with
+  | nil => intro pc sb _ ⟨f, h⟩; simp at h
+  | cons x ws ih =>
+    intro pc sb hpc ⟨f, h⟩
+    cases x <;> simp only [oncePerPairGo]
+    case childBornBeforeParent f0 p0 c0 =>
+      by_cases he : (p0, c0) = (p, c)
+      · simp only [Prod.mk.injEq] at he
+        obtain ⟨rfl, rfl⟩ := he
+        have : ¬ pc.contains (p0, c0) = true := by simpa using hpc
+        rw [if_neg this]
+        exact ⟨f0, by simp⟩
+      · have hin : Warning.childBornBeforeParent f p c ∈ ws := by
+          rcases List.mem_cons.mp h with e | h'
+          · simp only [Warning.childBornBeforeParent.injEq] at e
+            exact absurd (by rw [e.2.1, e.2.2]) he
+          · exact h'
+        split
+        · exact ih pc sb hpc ⟨f, hin⟩
+        · obtain ⟨f', hf'⟩ := ih (pc ++ [(p0, c0)]) sb (by
+            simp only [List.mem_append, List.mem_singleton, not_or]
+            exact ⟨hpc, fun e => he e.symm⟩) ⟨f, hin⟩
+          exact ⟨f', by simp [hf']⟩
+    case siblingsBornTooClose f0 a b =>
+      have hin : Warning.childBornBeforeParent f p c ∈ ws := by simpa using h
+      split
+      · exact ih pc sb hpc ⟨f, hin⟩
+      · obtain ⟨f', hf'⟩ := ih pc (sb ++ [(a, b)]) hpc ⟨f, hin⟩
+        exact ⟨f', List.mem_cons_of_mem _ hf'⟩
+    all_goals
+      have hin : Warning.childBornBeforeParent f p c ∈ ws := by simpa using h
+      obtain ⟨f', hf'⟩ := ih pc sb hpc ⟨f, hin⟩
+      exact ⟨f', by simp [hf']⟩
+
+theorem symPair_comm {p q : Nat × Nat} (h : symPair p q) : symPair q p := by
+  rcases h with ⟨h1, h2⟩ | ⟨h1, h2⟩
+  · exact Or.inl ⟨h1.symm, h2.symm⟩
+  · exact Or.inr ⟨h2.symm, h1.symm⟩
+
+/-- a sibling pair that is reported at all, and is not in the set yet, stays reported in one
+    order or the other -/
+theorem opp_sib_kept {a b : Nat} : ∀ (ws : List Warning) (pc sb : List (Nat × Nat)),
+    pairsHas sb a b = false → (∃ f, Warning.siblingsBornTooClose f a b ∈ ws) →
+    ∃ f, Warning.siblingsBornTooClose f a b ∈ oncePerPairGo ws pc sb ∨
+         Warning.siblingsBornTooClose f b a ∈ oncePerPairGo ws pc sb := by
+  intro ws
+  induction ws with
+  | nil => intro pc sb _ ⟨f, h⟩; simp at h
+  | cons x ws ih =>
+    intro pc sb hsb ⟨f, h⟩
+    cases x <;> simp only [oncePerPairGo]
+    case siblingsBornTooClose f0 a0 b0 =>
+      by_cases he : symPair (a0, b0) (a, b)
+      · have : ¬ pairsHas sb a0 b0 = true := by
+          intro hh
+          obtain ⟨q, hq, hs⟩ := pairsHas_iff.mp hh
+          have : pairsHas sb a b = true := pairsHas_iff.mpr ⟨q, hq, by
+            rcases hs with ⟨h1, h2⟩ | ⟨h1, h2⟩ <;> rcases he with ⟨e1, e2⟩ | ⟨e1, e2⟩ <;>
+              simp only at h1 h2 e1 e2 <;> simp [symPair, h1, h2, ← e1, ← e2]⟩
+          rw [hsb] at this; exact Bool.noConfusion this
+        rw [if_neg this]
+        rcases he with ⟨e1, e2⟩ | ⟨e1, e2⟩ <;> simp only at e1 e2 <;> subst e1 <;> subst e2
+        · exact ⟨f0, Or.inl (by simp)⟩
+        · exact ⟨f0, Or.inr (by simp)⟩
+      · have hin : Warning.siblingsBornTooClose f a b ∈ ws := by
+          rcases List.mem_cons.mp h with e | h'
+          · simp only [Warning.siblingsBornTooClose.injEq] at e
+            exact absurd (Or.inl ⟨e.2.1.symm, e.2.2.symm⟩) he
+          · exact h'
+        split
+        · exact ih pc sb hsb ⟨f, hin⟩
+        · have hsb' : pairsHas (sb ++ [(a0, b0)]) a b = false := by
+            cases hq : pairsHas (sb ++ [(a0, b0)]) a b with
+            | false => rfl
+            | true =>
+              obtain ⟨q, hq', hs⟩ := pairsHas_iff.mp hq
+              rcases List.mem_append.mp hq' with hq' | hq'
+              · have : pairsHas sb a b = true := pairsHas_iff.mpr ⟨q, hq', hs⟩
+                rw [hsb] at this; exact Bool.noConfusion this
+              · simp only [List.mem_singleton] at hq'
+                subst hq'; exact absurd hs he
+          obtain ⟨f', hf'⟩ := ih pc _ hsb' ⟨f, hin⟩
+          exact ⟨f', by rcases hf' with h' | h' <;> simp [h']⟩
+    case childBornBeforeParent f0 p c =>
+      have hin : Warning.siblingsBornTooClose f a b ∈ ws := by simpa using h
+      split
+      · exact ih pc sb hsb ⟨f, hin⟩
+      · obtain ⟨f', hf'⟩ := ih (pc ++ [(p, c)]) sb hsb ⟨f, hin⟩
+        exact ⟨f', hf'.imp (List.mem_cons_of_mem _) (List.mem_cons_of_mem _)⟩
+    all_goals
+      have hin : Warning.siblingsBornTooClose f a b ∈ ws := by simpa using h
+      obtain ⟨f', hf'⟩ := ih pc sb hsb ⟨f, hin⟩
+      exact ⟨f', by rcases hf' with h' | h' <;> simp [h']⟩
+
+/-- no pair twice, and nothing that is already in the sets -/
+theorem opp_once : ∀ (ws : List Warning) (pc sb : List (Nat × Nat)),
+    (oncePerPairGo ws pc sb).Pairwise (fun w w' => ¬ samePair w w') ∧
+    (∀ f p c, Warning.childBornBeforeParent f p c ∈ oncePerPairGo ws pc sb → (p, c) ∉ pc) ∧
+    (∀ f a b, Warning.siblingsBornTooClose f a b ∈ oncePerPairGo ws pc sb → pairsHas sb a b = false) := by
+  intro ws
+  induction ws with
+  | nil => intro pc sb; simp [oncePerPairGo]
+  | cons x ws ih =>
+    intro pc sb
+    cases x <;> simp only [oncePerPairGo]
+    case childBornBeforeParent f0 p0 c0 =>
+      split
+      · exact ih pc sb
+      · rename_i hnc
+        obtain ⟨i1, i2, i3⟩ := ih (pc ++ [(p0, c0)]) sb
+        refine ⟨List.pairwise_cons.mpr ⟨?_, i1⟩, ?_, ?_⟩
+        · intro y hy
+          cases y <;> simp only [samePair, not_false_eq_true]
+          rename_i f1 p1 c1
+          have := i2 f1 p1 c1 hy
+          simp only [List.mem_append, List.mem_singleton, not_or, Prod.mk.injEq] at this
+          intro ⟨e1, e2⟩
+          exact this.2 ⟨e1.symm, e2.symm⟩
+        · intro f p c h
+          rcases List.mem_cons.mp h with e | h'
+          · simp only [Warning.childBornBeforeParent.injEq] at e
+            obtain ⟨_, rfl, rfl⟩ := e
+            simpa using hnc
+          · have := i2 f p c h'
+            simp only [List.mem_append, not_or] at this
+            exact this.1
+        · intro f a b h
+          exact i3 f a b (by simpa using h)
+    case siblingsBornTooClose f0 a0 b0 =>
+      split
+      · exact ih pc sb
+      · rename_i hnc
+        obtain ⟨i1, i2, i3⟩ := ih pc (sb ++ [(a0, b0)])
+        refine ⟨List.pairwise_cons.mpr ⟨?_, i1⟩, ?_, ?_⟩
+        · intro y hy
+          cases y <;> simp only [samePair, not_false_eq_true]
+          rename_i f1 a1 b1
+          have h3 := i3 f1 a1 b1 hy
+          intro hs
+          have : pairsHas (sb ++ [(a0, b0)]) a1 b1 = true :=
+            pairsHas_iff.mpr ⟨(a0, b0), by simp, hs⟩
+          rw [h3] at this; exact Bool.noConfusion this
+        · intro f p c h
+          exact i2 f p c (by simpa using h)
+        · intro f a b h
+          rcases List.mem_cons.mp h with e | h'
+          · simp only [Warning.siblingsBornTooClose.injEq] at e
+            obtain ⟨_, rfl, rfl⟩ := e
+            simpa using hnc
+          · have h3 := i3 f a b h'
+            cases hq : pairsHas sb a b with
+            | false => rfl
+            | true =>
+              obtain ⟨q, hq', hs⟩ := pairsHas_iff.mp hq
+              have : pairsHas (sb ++ [(a0, b0)]) a b = true := pairsHas_iff.mpr ⟨q, by simp [hq'], hs⟩
+              rw [h3] at this; exact Bool.noConfusion this
+    all_goals
+      obtain ⟨i1, i2, i3⟩ := ih pc sb
+      refine ⟨List.pairwise_cons.mpr ⟨?_, i1⟩, ?_, ?_⟩
+      · intro y _; simp [samePair]
+      · intro f p c h; exact i2 f p c (by simpa using h)
+      · intro f a b h; exact i3 f a b (by simpa using h)
+
+theorem oncePerPair_sublist (ws : List Warning) : List.Sublist (oncePerPair ws) ws := opp_sublist ws [] []
+
+theorem mem_oncePerPair_other {w : Warning} (h1 : w.kind ≠ .cbbp) (h2 : w.kind ≠ .sib) (ws : List Warning) :
+    w ∈ oncePerPair ws ↔ w ∈ ws := opp_mem_other h1 h2 ws [] []
+
+theorem oncePerPair_kind {ws : List Warning} {k : Kind} (h : ∀ w ∈ ws, w.kind = k) :
+    ∀ w ∈ oncePerPair ws, w.kind = k := fun w hw => h w ((oncePerPair_sublist ws).subset hw)
+
 theorem kind_cbbp {d : Doc} {f : Fam} {w : Warning} (h : w ∈ childrenBornBeforeParents d f) :
     w.kind = .cbbp := by
-  simp only [childrenBornBeforeParents, List.mem_flatMap] at h
+  have h := (oncePerPair_sublist _).subset h
+  simp only [childrenBornBeforeParentsRaw, List.mem_flatMap] at h
   obtain ⟨c, _, hc⟩ := h
   split at hc
   · simp at hc
@@ -128,8 +356,8 @@ theorem kind_sexes {i : Indi} {w : Warning} (h : w ∈ multipleSexes i) : w.kind
 /-! ### where a warning of each kind can come from -/
 
 theorem mem_warnings {d : Doc} {now : Date} {w : Warning} :
-    w ∈ warnings d now ↔ ∃ r ∈ d, w ∈ recWarnings d now r := by
-  simp [warnings, List.mem_flatMap]
+    w ∈ rawWarnings d now ↔ ∃ r ∈ d, w ∈ recWarnings d now r := by
+  simp [rawWarnings, List.mem_flatMap]
 
 theorem mem_indis {d : Doc} {i : Indi} : i ∈ indis d ↔ Rec.indi i ∈ d := by
   simp only [indis, List.mem_filterMap]
@@ -148,7 +376,7 @@ theorem mem_fams {d : Doc} {f : Fam} : f ∈ fams d ↔ Rec.fam f ∈ d := by
   · intro h; exact ⟨_, h, rfl⟩
 
 theorem mem_warnings_cases {d : Doc} {now : Date} {w : Warning} :
-    w ∈ warnings d now ↔
+    w ∈ rawWarnings d now ↔
       (∃ i, Rec.indi i ∈ d ∧ (w ∈ incorrectEventOrder i ∨ w ∈ tooOld i now ∨ w ∈ multipleSexes i ∨
           w ∈ unparsable false i.ptr i.events)) ∨
       (∃ f, Rec.fam f ∈ d ∧ (w ∈ childrenBornBeforeParents d f ∨ w ∈ siblingsBornTooClose d f ∨
@@ -567,13 +795,6 @@ theorem siblingsLoop_eq (d : Doc) (f : Fam) :
     siblingsLoop d f = (chilPairs f).foldl (pairStep d f.ptr) ([], []) := by
   unfold siblingsLoop chilPairs pairStep
   exact (foldl_pairs (siblingStep d f.ptr) f.chil f.chil ([], [])).symm
-
-/-- the same unordered pair -/
-def symPair (p q : Nat × Nat) : Prop := (p.1 = q.1 ∧ p.2 = q.2) ∨ (p.1 = q.2 ∧ p.2 = q.1)
-
-theorem pairsHas_iff {ps : List (Nat × Nat)} {a b : Nat} :
-    pairsHas ps a b = true ↔ ∃ q ∈ ps, symPair q (a, b) := by
-  simp [pairsHas, symPair, List.any_eq_true]
 
 structure SibInv (d : Doc) (fam : Nat) (L : List (Nat × Nat)) (st : SibState) : Prop where
   map : st.2 = st.1.map fun p => Warning.siblingsBornTooClose fam p.1 p.2
